@@ -293,6 +293,15 @@ class Pool:
             return [self._call(deserialization_schema, tp), self._call(deserialization_schema, tp, all_refs=True)]
         if kind == "ss":
             return [self._call(serialization_schema, tp), self._call(serialization_schema, tp, all_refs=True)]
+        if kind == "of":
+            # the public getters, which other modules import BY NAME (their reference to the cached
+            # function is not the module attribute that cache.set_size rebinds)
+            from apischema.objects import get_alias, object_fields
+
+            def fields_view():
+                return [[f.name, f.alias, f.required] for f in object_fields(tp).values()]
+
+            return [self._call(fields_view), self._call(lambda: sorted(str(getattr(get_alias(tp), n)) for n in object_fields(tp)))]
         raise KeyError(obs)
 
     def hold(self, obs: str):
@@ -368,7 +377,7 @@ KNOBS: Dict[str, dict] = {
     "ca.set_size": {"vals": [1, 2], "mech": "meta"},
 }
 
-OBS = ["d.K", "s.K", "ds.K", "ss.K", "d.X", "s.X", "ds.X", "ss.X", "d.H", "s.H", "d.LX", "d.Base", "s.Base", "ds.Base",
+OBS = ["of.K", "d.K", "s.K", "ds.K", "ss.K", "d.X", "s.X", "ds.X", "ss.X", "d.H", "s.H", "d.LX", "d.Base", "s.Base", "ds.Base",
        "d.NT", "ds.NT", "d.FS", "s.FS", "d.R", "s.R", "d.UIS", "d.USI"]
 # Union[int, str] and Union[str, int] are equal and hash-equal: one cache key
 KEY = {o: o for o in OBS}
